@@ -96,8 +96,9 @@ func (p *Program) wiringTable() map[fieldKey][]*ssa.Function {
 				if !ok || tn == "" {
 					continue
 				}
+				qn := qualTypeName(fa.X.Type())
 				for _, t := range funcValueTargets(st.Val, 0) {
-					w[fieldKey{tn, f}] = append(w[fieldKey{tn, f}], unwrapBound(t))
+					w[fieldKey{qn, f}] = append(w[fieldKey{qn, f}], unwrapBound(t))
 				}
 			}
 		}
@@ -169,8 +170,8 @@ func (p *Program) Callees(c ssa.CallInstruction) (fns []*ssa.Function, dynamic b
 		}
 		return ts, false
 	}
-	if tn, f, ok := fieldOfLoad(com.Value); ok {
-		if ts := p.wiringTable()[fieldKey{tn, f}]; len(ts) > 0 {
+	if _, f, ok := fieldOfLoad(com.Value); ok {
+		if ts := p.wiringTable()[fieldKey{qualTypeName(fieldOwnerPtr(com.Value)), f}]; len(ts) > 0 {
 			return ts, false
 		}
 	}
@@ -321,4 +322,34 @@ func (p *Program) CallSitesOf(fn *ssa.Function) []ssa.CallInstruction {
 		}
 	}
 	return p.callSites[fn]
+}
+
+// qualTypeName: "pkg.Type" for a (pointer to a) named type.
+func qualTypeName(t types.Type) string {
+	if t == nil {
+		return ""
+	}
+	if p, ok := t.Underlying().(*types.Pointer); ok {
+		t = p.Elem()
+	}
+	if p, ok := t.(*types.Pointer); ok {
+		t = p.Elem()
+	}
+	if n, ok := t.(*types.Named); ok && n.Obj().Pkg() != nil {
+		return n.Obj().Pkg().Name() + "." + n.Obj().Name()
+	}
+	return ""
+}
+
+// fieldOwnerPtr: for a load of a struct field, the type of the struct pointer.
+func fieldOwnerPtr(v ssa.Value) types.Type {
+	switch x := v.(type) {
+	case *ssa.UnOp:
+		if fa, ok := x.X.(*ssa.FieldAddr); ok {
+			return fa.X.Type()
+		}
+	case *ssa.Field:
+		return x.X.Type()
+	}
+	return nil
 }
